@@ -147,6 +147,13 @@ def c06_targeted():
         add("down-in-tensor:" + pair, "let f(x : %s ((%s \\/ %s 1) * 1)) : %s 1 = <a, b> <- recv x; c <- shift a; wait c; wait b; close self" % (m2, m1, m2, m2))
         add("case-payload:" + pair, "type C = %s +{l : 1}\nlet f(x : C) : %s 1 = case x ( l<c> => wait c; close self )" % (m1, m2))
         add("recv-self-payload:" + pair, "let f(y : %s 1) : %s (1 -* 1) = <a, s> <- recv self; wait a; wait y; close s" % (m1, m2))
+        # a correctly directed shift NESTED in a type of another mode (its target mode m1 against the
+        # surrounding mode m2): the provider would be handed a channel of a weaker mode
+        add("nested-down-in-lolli:" + pair, "let f() : %s ((lin \\/ %s 1) -* 1) = <x, s> <- recv self; w <- shift x; wait w; close s" % (m2, m1))
+        add("nested-down-in-tensor-param:" + pair, "let f(p : %s ((rep \\/ %s 1) * 1)) : %s 1 = <x, y> <- recv p; w <- shift x; wait w; wait y; close self" % (m2, m1, m2))
+        add("nested-down-in-branch:" + pair, "let f() : %s &{l : rep \\/ %s 1} = case self ( l<c> => d <- shift c; wait d; close self )" % (m2, m1))
+        add("nested-up-in-up:" + pair, "let f(x : aff 1) : %s /\\ %s (%s /\\ rep 1) = y <- shift self; z <- shift y; wait x; close z" % (m2, m2, m1))
+        add("nested-up-in-choice:" + pair, "type C = %s +{l : lin /\\ %s 1}\nlet f(x : C) : lin 1 = case x ( l<c> => r : lin 1 <- new cast c<self>; wait r; close self )" % (m2, m1))
     return out
 
 
